@@ -919,6 +919,18 @@ func (c *evalCtx) callExpr(n *ECall) EV {
 			}
 		}
 		recv := c.eval(sel.X)
+		if recv.V.Typ != nil && isInterface(recv.V.Typ) && len(n.Args) == 0 {
+			it := types.Unalias(recv.V.Typ).Underlying().(*types.Interface)
+			for i := 0; i < it.NumMethods(); i++ {
+				if m := it.Method(i); m.Name() == sel.Field {
+					rt := m.Type().(*types.Signature).Results().At(0).Type()
+					if v, ok := e.constMethodFor(recv.V.Typ, m, recv.V, rt); ok {
+						return EV{V: v}
+					}
+					c.fail("interface method %s is not a constant function of the dynamic type", sel.Field)
+				}
+			}
+		}
 		if recv.V.Typ != nil {
 			ms := e.W.Prog.MethodSets.MethodSet(recv.V.Typ)
 			for i := 0; i < ms.Len(); i++ {
